@@ -30,7 +30,7 @@ def specs_for(ctx):
         dict(D=3, target="abs", box="mixed", noise="auto", sigma=0.1, x0="absent", options=dict(max_fun_evals=90), seed=sd + 8),
         dict(D=1, target="plateau", box="unb", noise="det", x0="absent", options=dict(max_fun_evals=40), seed=sd + 9),
     ]
-    return specs
+    return specs + S.panel_nondefault(ctx.seed)
 
 
 def tie(ctx, broken):
